@@ -100,7 +100,7 @@ impl<'a, 'tcx> D<'a, 'tcx> {
         use rustc_ast::LitKind::*;
         match &l.node {
             Str(s, _) => J::O(vec![("t", J::s("str")), ("v", J::S(s.to_string()))]),
-            ByteStr(b, _) => J::O(vec![("t", J::s("bytestr")), ("v", J::S(String::from_utf8_lossy(b.as_byte_str()).to_string()))]),
+            ByteStr(b, _) => J::O(vec![("t", J::s("bytestr")), ("v", J::S(b.as_byte_str().iter().map(|&x| x as char).collect::<String>()))]),
             Byte(b) => J::O(vec![("t", J::s("byte")), ("v", J::I(*b as i128))]),
             Char(c) => J::O(vec![("t", J::s("char")), ("v", J::S(c.to_string()))]),
             Int(v, _) => J::O(vec![("t", J::s("int")), ("v", J::I(v.get() as i128))]),
@@ -136,11 +136,11 @@ impl<'a, 'tcx> D<'a, 'tcx> {
         let mut o: Vec<(&'static str, J)> = vec![];
         use hir::PatKind::*;
         match &p.kind {
-            Wild => o.push(("k", J::s("Wild"))),
-            Missing => o.push(("k", J::s("Missing"))),
-            Never => o.push(("k", J::s("Never"))),
+            Wild => o.push(("k", J::s("PWild"))),
+            Missing => o.push(("k", J::s("PMissing"))),
+            Never => o.push(("k", J::s("PNever"))),
             Binding(mode, hid, ident, sub) => {
-                o.push(("k", J::s("Binding")));
+                o.push(("k", J::s("PBinding")));
                 o.push(("name", J::S(ident.name.to_string())));
                 o.push(("lid", J::I(hid.local_id.as_u32() as i128)));
                 o.push(("mode", J::S(format!("{:?}", mode))));
@@ -149,7 +149,7 @@ impl<'a, 'tcx> D<'a, 'tcx> {
                 }
             }
             Struct(q, fields, rest) => {
-                o.push(("k", J::s("Struct")));
+                o.push(("k", J::s("PStruct")));
                 self.qpath(&mut o, q, p.hir_id);
                 o.push((
                     "fields",
@@ -161,7 +161,7 @@ impl<'a, 'tcx> D<'a, 'tcx> {
                 o.push(("rest", J::B(rest.is_some())));
             }
             TupleStruct(q, pats, ddp) => {
-                o.push(("k", J::s("TupleStruct")));
+                o.push(("k", J::s("PTupleStruct")));
                 self.qpath(&mut o, q, p.hir_id);
                 o.push(("pats", J::A(pats.iter().map(|x| self.pat(x)).collect())));
                 if let Some(i) = ddp.as_opt_usize() {
@@ -169,40 +169,40 @@ impl<'a, 'tcx> D<'a, 'tcx> {
                 }
             }
             Or(pats) => {
-                o.push(("k", J::s("Or")));
+                o.push(("k", J::s("POr")));
                 o.push(("pats", J::A(pats.iter().map(|x| self.pat(x)).collect())));
             }
             Tuple(pats, ddp) => {
-                o.push(("k", J::s("Tuple")));
+                o.push(("k", J::s("PTuple")));
                 o.push(("pats", J::A(pats.iter().map(|x| self.pat(x)).collect())));
                 if let Some(i) = ddp.as_opt_usize() {
                     o.push(("dotdot", J::I(i as i128)));
                 }
             }
             Box(x) => {
-                o.push(("k", J::s("Box")));
+                o.push(("k", J::s("PBox")));
                 o.push(("pat", self.pat(x)));
             }
             Deref(x) => {
-                o.push(("k", J::s("Deref")));
+                o.push(("k", J::s("PDeref")));
                 o.push(("pat", self.pat(x)));
             }
             Ref(x, _, m) => {
-                o.push(("k", J::s("Ref")));
+                o.push(("k", J::s("PRef")));
                 o.push(("mut", J::B(m.is_mut())));
                 o.push(("pat", self.pat(x)));
             }
             Expr(e) => {
-                o.push(("k", J::s("Expr")));
+                o.push(("k", J::s("PExpr")));
                 o.push(("e", self.pat_expr(e)));
             }
             Guard(x, g) => {
-                o.push(("k", J::s("Guard")));
+                o.push(("k", J::s("PGuard")));
                 o.push(("pat", self.pat(x)));
                 o.push(("guard", self.expr(g)));
             }
             Range(a, b, end) => {
-                o.push(("k", J::s("Range")));
+                o.push(("k", J::s("PRange")));
                 if let Some(a) = a {
                     o.push(("lo", self.pat_expr(a)));
                 }
@@ -212,14 +212,14 @@ impl<'a, 'tcx> D<'a, 'tcx> {
                 o.push(("end", J::S(format!("{:?}", end))));
             }
             Slice(a, m, b) => {
-                o.push(("k", J::s("Slice")));
+                o.push(("k", J::s("PSlice")));
                 o.push(("before", J::A(a.iter().map(|x| self.pat(x)).collect())));
                 if let Some(m) = m {
                     o.push(("mid", self.pat(m)));
                 }
                 o.push(("after", J::A(b.iter().map(|x| self.pat(x)).collect())));
             }
-            Err(_) => o.push(("k", J::s("Err"))),
+            Err(_) => o.push(("k", J::s("PErr"))),
         }
         self.cx.sp_fields(&mut o, p.span);
         o.push(("ty", J::S(self.cx.ty_str(self.tr.pat_ty(p)))));
